@@ -657,10 +657,16 @@ fn history(w: &mut dyn Write, rng: &mut Rng, kind: &str, mut n: u32, hcfg: &Hist
             writeln!(w, "eq {} {}", a, b).unwrap();
         }
         if hcfg.nodes_every != 0 && step % hcfg.nodes_every == 0 {
-            writeln!(w, "nodes").unwrap();
+            writeln!(w, "rcchk").unwrap();
         }
         if hcfg.dump_every != 0 && step % hcfg.dump_every == 0 {
-            writeln!(w, "dump").unwrap();
+            // reference counts of every stored node: with garbage present (oracle only) and,
+            // after a collection, compared with the model's store
+            writeln!(w, "rcchk").unwrap();
+            if step % (3 * hcfg.dump_every) == 0 {
+                writeln!(w, "gc").unwrap();
+                writeln!(w, "dump").unwrap();
+            }
         }
         if hcfg.audit_every != 0 && step % hcfg.audit_every == 0 {
             writeln!(w, "audit").unwrap();
